@@ -401,7 +401,7 @@ def judge_traces(r, binp, files, module, cfg, own, genkw=None):
     """TLC validates the trace files; rejections owned by this check are reproduced in a fresh process (same
     generator, same arguments, only the scenarios concerned) before they count."""
     bad, nbad = validate_traces(r, files, module, cfg)
-    r.nontrivial = sum(v for k, v in r.classes.items() if k in ("value", "error", "errorNV", "accept", "refuse", "row", "ok"))
+    r.nontrivial = sum(v for k, v in r.classes.items() if k in ("value", "error", "errorNV", "accept", "refuse", "row", "ok", "panics"))
     if nbad.get("INC", 0):
         raise Inconclusive("%d event(s) inconclusive (oracle table miss / bad hint): %s"
                            % (nbad["INC"], [b for b in bad if b["p"] == "INC"][:3]))
